@@ -133,8 +133,6 @@ def main():
         "not_applicable": na,
         "notes": "Single entry point bin/check <ID> <quick|thorough>; VERIF_SEED selects the seed; known findings in known_findings.json; see DESIGN.md.",
     }
-    if not na:
-        del doc["not_applicable"]
     try:
         import jsonschema
         jsonschema.validate(doc, json.load(open("/root/.vp/MANIFEST.schema.json")))
